@@ -308,7 +308,7 @@ def gen_module(thorough):
     return mod, n
 
 
-def gen_arrays():
+def gen_arrays(mirror=False):
     from pysph.base.utils import get_particle_array
     from pysph.base.nnps import DomainManager
     out = []
@@ -323,11 +323,73 @@ def gen_arrays():
         pa.add_constant('hook', [float(uid)])
         uid += n
         out.append(pa)
-    dom = DomainManager(xmin=0.0, xmax=1.2, periodic_in_x=True, n_layers=1.0)
+    if mirror:
+        dom = DomainManager(xmin=0.0, xmax=1.2, mirror_in_x=True,
+                            n_layers=1.0)
+    else:
+        dom = DomainManager(xmin=0.0, xmax=1.2, periodic_in_x=True,
+                            n_layers=1.0)
     return out, dom
 
 
-def gen_case(idx, thorough, wiring):
+REDEF_BODIES = [
+    ['self.compute_accelerations()', 'self.stage1()',
+     'self.do_post_stage(dt, 1)'],
+    ['self.initialize()', 'self.compute_accelerations()', 'self.stage1()',
+     'self.do_post_stage(0.5*dt, 1)', 'self.compute_accelerations()',
+     'self.stage2()', 'self.do_post_stage(dt, 2)'],
+    ['self.stage2()', 'self.do_post_stage(0.25*dt, 1)',
+     'self.compute_accelerations(1)', 'self.stage1()', 'self.stage3()',
+     'self.do_post_stage(dt, 2)'],
+]
+
+
+def redef_class(version):
+    """A class called Redef in a module called c04_redef, re-defined with a
+    different one_timestep (what a notebook cell or a reload does)."""
+    import sys
+    src = GEN_HEADER + '\n\nclass Redef(Integrator):\n' \
+        '    def one_timestep(self, t, dt):\n' + ''.join(
+            '        %s\n' % l for l in REDEF_BODIES[version])
+    d = os.path.join(os.path.expanduser('~'), 'verif_gen')
+    os.makedirs(d, exist_ok=True)
+    path = os.path.join(d, 'c04_redef_v%d_%s.py' % (
+        version, hashlib.md5(src.encode()).hexdigest()[:8]))
+    if not os.path.exists(path):
+        tmp = path + '.%d' % os.getpid()
+        with open(tmp, 'w') as f:
+            f.write(src)
+        os.replace(tmp, path)
+    spec = importlib.util.spec_from_file_location('c04_redef', path)
+    mod = importlib.util.module_from_spec(spec)
+    sys.modules['c04_redef'] = mod
+    spec.loader.exec_module(mod)
+    return mod
+
+
+def _redef_job(_):
+    out = []
+    for version in range(len(REDEF_BODIES)):
+        mod = redef_class(version)
+        try:
+            res, logs = gen_case(0, False, 0, module=mod)
+        except SystemExit:
+            out.append((version, 'does not compile'))
+            continue
+        bad = None
+        for k, (a, b) in enumerate(zip(res['compiled'], res['reference'])):
+            d = diff_states(a, b, exact=True)
+            if d:
+                bad = 'after step %d: %s' % (k + 1, d)
+                break
+        if bad is None and logs['compiled'] != logs['reference']:
+            bad = 'post-stage log: compiled %r reference %r' % (
+                logs['compiled'][:6], logs['reference'][:6])
+        out.append((version, bad))
+    return out
+
+
+def gen_case(idx, thorough, wiring, module=None):
     from compyle.config import get_config
     get_config().use_openmp = False
     from pysph.base.kernels import CubicSpline
@@ -336,15 +398,18 @@ def gen_case(idx, thorough, wiring):
     from pysph.sph.sph_compiler import SPHCompiler
     from pysph.sph.equation import Group
     from vlib.ref.integrator_mirror import Mirror
-    mod, n = gen_module(thorough)
-    cls = getattr(mod, 'GenInt%03d' % idx)
+    if module is not None:
+        mod, cls = module, module.Redef
+    else:
+        mod, n = gen_module(thorough)
+        cls = getattr(mod, 'GenInt%03d' % idx)
     kernel = CubicSpline(dim=2)
     dts = [0.01, 0.004, 0.01]
     res = {}
     logs = {}
     for side in ('compiled', 'reference'):
-        arrays, dom = gen_arrays()
-        if wiring == 0:
+        arrays, dom = gen_arrays(mirror=(wiring == 4))
+        if wiring in (0, 4):
             steppers = dict(a=mod.TrStepA(k=2.0), b=mod.TrStepB())
         elif wiring == 1:
             steppers = dict(a=mod.TrStepB(), b=mod.TrStepA(k=4.0),
@@ -374,6 +439,10 @@ def gen_case(idx, thorough, wiring):
                 ae.set_nnps(nn)
             integ.set_nnps(nn)
             integ.set_post_stage_callback(cb)
+            if wiring == 4:
+                # constant smoothing lengths declared (what
+                # Solver(fixed_h=True) does): ghosts must still be re-created
+                integ.set_fixed_h(True)
             obj = integ
         else:
             obj = Mirror(integ, arrays, [g0, g1], kernel, nn, log)
@@ -425,8 +494,11 @@ def run(ctx):
     gsrc, _ = gen_integrators(ctx.thorough)
     gjobs = []
     bodies = gsrc.split('class GenInt')[1:]
-    for w in (0, 1, 2, 3):
+    for w in (0, 1, 2, 3, 4):
         idxs = list(range(ngen))
+        if w == 4:
+            # mirror domain + fixed_h: integrators that call update_domain
+            idxs = [i for i in idxs if 'update_domain' in bodies[i]]
         if w == 3:
             # the hook adds a particle: only integrators that refresh the
             # neighbour search before they use it again
@@ -435,9 +507,12 @@ def run(ctx):
             idxs = idxs[(ctx.seed + w) % 3::3]
         for i in range(0, len(idxs), 6):
             gjobs.append((idxs[i:i + 6], ctx.thorough, w))
-    jobs = [('s', j) for j in sjobs] + [('g', j) for j in gjobs]
+    jobs = [('s', j) for j in sjobs] + [('g', j) for j in gjobs] + \
+        [('r', None)]
 
     def disp(j):
+        if j[0] == 'r':
+            return _redef_job(None)
         return _scheme_job(j[1]) if j[0] == 's' else _gen_job(j[1])
     res = map_jobs(disp, jobs, ctx.ncpu, job_timeout=3000)
     viol = {}
@@ -445,6 +520,20 @@ def run(ctx):
     skipped = []
     samples = []
     for (kind, j), r in zip(jobs, res):
+        if kind == 'r':
+            if isinstance(r, Crash):
+                viol.setdefault('integrator:redefined:crash', (
+                    r.reason, dict(kind='redefined')))
+                continue
+            for version, bad in r:
+                nprog += 1
+                if bad:
+                    viol.setdefault('integrator:redefined', (
+                        'class Redef of module c04_redef, definition %d '
+                        '(after the earlier definitions were compiled in '
+                        'the same process): %s' % (version, bad),
+                        dict(kind='redefined')))
+            continue
         if isinstance(r, Crash):
             rep = dict(kind='scheme', mod=j[0], name=j[1], dim=j[2],
                        solid=j[3]) if kind == 's' else \
@@ -488,11 +577,13 @@ def run(ctx):
                     '3/5 stages x with/without initialize x 4 acceleration '
                     'placements (default, once, index 0/1 with update_nnps='
                     'False, evaluator 1) x update_domain after each stage or '
-                    'not x stage-time fractions, with four stepper wirings '
+                    'not x stage-time fractions, with five wirings '
                     '(one array without stepper, py_stage hooks on a subset '
-                    'of stages, a hook that adds particles) on three arrays in a periodic domain, 3 '
+                    'of stages, a hook that adds particles; a mirror instead of a periodic domain with fixed_h declared) on three arrays in a periodic domain, 3 '
                     'steps of varying dt; compiled Integrator.step vs the '
-                    'mirror; all properties and the post-stage log')
+                    'mirror; all properties and the post-stage log; (c) an '
+                    'integrator class re-defined twice under the same module '
+                    'and class name in one process')
     assumptions = ['the mirror (vlib/ref/integrator_mirror.py) and the '
                    'reference interpreter are the model of the documented '
                    'semantics', 'scheme cases are compared to 1e-11 relative '
@@ -507,6 +598,9 @@ def replay(ctx, obj):
         r = _scheme_job((obj['mod'], obj['name'], obj['dim'], obj['solid'],
                          {}))
         return dict(violates='problem' in r, result=r)
+    if obj.get('kind') == 'redefined':
+        r = _redef_job(None)
+        return dict(violates=any(b for v, b in r), result=r)
     idxs = obj['idxs'] if 'idxs' in obj else [obj['idx']]
     # a native crash ends the replay process itself (non-zero exit status)
     r = _gen_job((idxs, obj.get('thorough', False), obj['wiring']))
